@@ -53,7 +53,8 @@ class CallMixin:
                 kwargs = {kw.arg: v for kw, v in zip(node.keywords, vals[len(node.args):])}
                 for s2, v in self.call(s1, fv, args, kwargs, node):
                     if self.top_spec is not None and self.top_spec.ghost_at:
-                        self.run_ghost(s2, getattr(node, '_site', 'call'), extra={'result': v, 'callargs': list(args)}, site2=getattr(node, '_site2', None))
+                        self.run_ghost(s2, getattr(node, '_site', 'call'), extra={'result': v, 'callargs': list(args), 'callkwargs': dict(kwargs)},
+                                       site2=getattr(node, '_site2', None))
                     yield s2, v
             continue
             if star is not None:
